@@ -1102,7 +1102,9 @@ static void runGibbs(const GibbsCase& c, Ctx& ctx)
       if (!ok)
       {
         std::string key = (hasLo != hasUp) ? "gibbs:bounds:one-sided" : (c.nburn == 0 ? "gibbs:bounds:nburn0" : "gibbs:bounds");
-        if (std::isnan(y)) key = (c.moving && !c.multiMono) ? "gibbs:nan:moving" : "gibbs:nan";
+        bool pureGauss = true;
+        for (auto& st : c.strucs) pureGauss = pureGauss && st.type == S_GAUSS;
+        if (std::isnan(y)) key = pureGauss ? "gibbs:nan:pure-gaussian" : ((c.moving && !c.multiMono) ? "gibbs:nan:moving" : "gibbs:nan");
         ctx.fail(key, fmt("simulation %d sample %d = %.17g outside [%s, %s]", s + 1, i, y, hasLo ? fmt("%.17g", lo).c_str() : "NA",
                           hasUp ? fmt("%.17g", up).c_str() : "NA"));
         return;
@@ -1312,7 +1314,7 @@ static void runPgs(const PgsCase& c, Ctx& ctx)
   const double ttol = 1e-4; // the library's quantile function is accurate to ~1e-6
   bool checked = false;
   int nd = (int)c.place.size();
-  const std::string pk = (ngrf == 2 && c.nbsimu > 1) ? "pgs:2grf-multisimu:" : (nd == 1 ? "pgs:single-datum:" : "pgs:");
+  const std::string pk = (nd == 1) ? "pgs:single-datum:" : ((ngrf == 2 && c.nbsimu > 1) ? "pgs:2grf-multisimu:" : "pgs:");
   if (c.cond)
   {
     // the rule keeps the thresholds it used inside simpgs (constant proportions): they are read back, not recomputed
@@ -1343,7 +1345,7 @@ static void runPgs(const PgsCase& c, Ctx& ctx)
                 onThr = onThr || nearThr(yy, th[(size_t)(2 * gi)]) || nearThr(yy, th[(size_t)(2 * gi + 1)]);
               }
             }
-            ctx.fail(pk + (onThr ? "on-threshold:data-facies" : "data-facies"),
+            ctx.fail(onThr ? std::string("pgs:on-threshold:data-facies") : pk + "data-facies",
                      fmt("simulation %d at the node of datum %d: facies %g, observed %d%s", s + 1, k, got, f,
                          onThr ? " (conditioning gaussian on a threshold up to rounding)" : ""));
             return;
@@ -1368,7 +1370,7 @@ static void runPgs(const PgsCase& c, Ctx& ctx)
           for (int g = 0; g < ngrf && th.size() == 4; g++) onThr = onThr || nearThr(y[g], th[(size_t)(2 * g)]) || nearThr(y[g], th[(size_t)(2 * g + 1)]);
         }
         if (flib != f)
-        { ctx.fail(pk + (onThr ? "on-threshold:data-gauss-rule" : "data-gauss-rule"), fmt("simulation %d: gaussians (%.17g, %.17g) at datum %d give facies %d, observed %d", s + 1, y[0], y[1], k, flib, f)); return; }
+        { ctx.fail(onThr ? std::string("pgs:on-threshold:data-gauss-rule") : pk + "data-gauss-rule", fmt("simulation %d: gaussians (%.17g, %.17g) at datum %d give facies %d, observed %d", s + 1, y[0], y[1], k, flib, f)); return; }
       }
     }
   }
